@@ -51,7 +51,9 @@ CLAIMS = {
 }
 TECH = ("Coq proof (kernel-checked theorems, no axioms) over a hand-written Gallina model; the model is tied to /repo on every run by "
         "(1) a checked model/implementation correspondence (extracted OCaml model vs a Rust harness rebuilt from the working tree) and "
-        "(2) for the offset / selector / builder / encoder / bitfield core, a Rust->Gallina translator (rs2v) whose output is proved equal to the model (GenEquiv.v)")
+        "(2) a Rust->Gallina translator (rs2v) that re-derives Gallina definitions from the source text of the codec core, the bitfield files, the leaf / generic / collection impls and the entry points, "
+        "from rustc's expansion of the crate (tuple and map impls written by macro repetition) and from rustc's expansion of sample definitions (what the derive macros and four_byte_option_impl! write), "
+        "each derived definition being proved equal to the model's for every input (GenEquiv*.v); a break of (2) alone is reported (TIE-DEGRADED) and widens the search, the verdict rests on the theorems, (1) and the property's direct oracle")
 
 checks = []
 for p in props:
@@ -66,7 +68,7 @@ for p in props:
             replay_cmd_template="./check %s --replay {path}" % pid,
             engine="coq-model+correspondence",
             level_claimed=dict(category="proof", text=text, design_ref="DESIGN.md section 5 (%s)" % pid),
-            level_note="trusted: Coq 8.16.1 kernel (Print Assumptions: closed under the global context), extraction with ExtrOcamlBasic only, OCaml driver, Rust harness, type generator, the rs2v translator and RustSem.v; " + note,
+            level_note="trusted: Coq 8.16.1 kernel (Print Assumptions: closed under the global context), extraction with ExtrOcamlBasic only, OCaml driver, Rust harness, type generator, the rs2v translator, RustSem.v and rustc's -Zunpretty=expanded output for the two expansion ties; " + note,
             technique=TECH))
 NA = {
 }
